@@ -151,6 +151,12 @@ def jobs(tier):
                         params=dict(N=N, kinds=["ok", "exc", "res"], classes=["TRANSIENT", "UNKNOWN"], limits=["TRANSIENT"],
                                     cap="sym", budget="sym", operation="op", abort=True, ref="retry.call", entry=entry),
                         max_wall_s=wall, weight=3))
+        if entry in ("rp.call", "arp.execute"):  # the same through attribute assignment on the wrapper
+            e2 = entry.replace("rp.", "rpset.").replace("arp.", "arpset.") if entry.startswith("rp.") else entry.replace("arp.", "arpset.")
+            out.append(dict(name=f"fwd-caps:{e2}", harness="rv.props.c12:h_pair",
+                            params=dict(N=N, kinds=["ok", "exc", "res"], classes=["TRANSIENT", "UNKNOWN"], limits=["TRANSIENT"],
+                                        cap="sym", budget="sym", operation="op", abort=True, ref="retry.call", entry=e2),
+                            max_wall_s=wall, weight=3))
         # (iii) deadline and strategy values
         out.append(dict(name=f"fwd-timed:{entry}", harness="rv.props.c12:h_pair",
                         params=dict(N=N, kinds=["exc", "res"], classes=["TRANSIENT"], timed=True, strat=dict(raw="real"),
